@@ -403,7 +403,8 @@ class Rig:
         self.n += 1
         scf = os.path.join(self.dir, "sc_%d.txt" % self.n); trf = os.path.join(self.dir, "tr_%d.ndjson" % self.n)
         open(scf, "w").write(text)
-        rc, out = common.sh([exe, scf, trf], timeout=timeout, env=ASAN_ENV)
+        # wall clock part of the driver's scenario watchdog: a quick-tier scenario ends within 4 s (its timers are real time)
+        rc, out = common.sh([exe, scf, trf], timeout=timeout, env=dict(ASAN_ENV, X02_WD_WALL="40" if self.ctx.quick else "120"))
         evs = []
         if os.path.exists(trf):
             for ln in open(trf):
@@ -488,11 +489,16 @@ def report_reject(ctx, sc, evs, line, r, build):
 
 def run_traces(ctx, rig, exe, scs, build, seen):
     """run every scenario, validate in batches; returns number of accepted scenarios"""
-    runs = []
-    for sc in scs:
+    runs = []; hung = 0
+    for si, sc in enumerate(scs):
+        if hung >= 3:
+            # three scenarios already ended in the driver's watchdog (each is judged below, re-tried once, and reported): every further one
+            # costs the watchdog period again - the rest is not run, the check ends with its verdict in bounded time
+            ctx.add(scenarios_not_run_after_repeated_hangs=len(scs) - si); break
         rc, out, evs = rig.drive(exe, sc.text())
         if not evs or evs[0]["e"] != "pool":
             raise common.Infra("driver produced no trace:\n" + out[-2000:])
+        if any(e["e"] == "Hang" and e.get("where") == "watchdog" for e in evs): hung += 1
         if any(e["e"] == "rnd" and e.get("found") != 1 for e in evs):
             ctx.add(scenarios_skipped_jitter_search_failed=1); continue
         runs.append((sc, evs, rc, out))
